@@ -249,8 +249,8 @@ VERIF_TARGET(c19_prune, init, 64, 600,
     o.prune_target = node::BlockManager::PRUNE_TARGET_MANUAL;
     uint64_t auto_target = 0, auto_buffer = 0;
     if (auto_mode) {
-        // 0.75 .. 6.9 MiB: the last 288 blocks hold ~3 MiB on average, so both ways a pass can end are reached (back under the target / no eligible file left)
-        auto_target = uint64_t(s.range<unsigned>(12, 110)) * 65536;
+        // 0.75 .. 5 MiB: the last 288 blocks hold ~3 MiB on average, so both ways a pass can end are reached (back under the target / no eligible file left)
+        auto_target = uint64_t(s.range<unsigned>(12, 80)) * 65536;
         auto_buffer = s.pick<uint64_t>({0, 20000, 70000, 140000});
         o.prune_target = auto_target;
         verif::g_min_prune_target = 1;
